@@ -4,6 +4,7 @@ import Beetswap.Proofs.Handler
 import Beetswap.Proofs.ClientView
 import Beetswap.Proofs.Net
 import Beetswap.Proofs.ClientLink
+import Beetswap.Proofs.ClientLinkConns
 /-!
 # C14 — A wantlist handed to a connection is delivered whole or reported failed (partial)
 
@@ -318,6 +319,17 @@ theorem own_report_taken (c : Client.State) (p src : Nat) (st : Sending) (q : Na
       if q = p then (c.peers[p]?).map (fun ps => ({ ps with sending := st } : PeerSt)) else c.peers[q]? := by
   rw [Proofs.ClientSending.sendingChanged_eq_set c p src st h]
   exact Proofs.ClientSending.setSending_peers c p st q
+
+/-- A connection that was given up stays given up: connection `c` enters a peer's set of usable
+connections only by being established — no report of any handler (late, stale, out of order), no
+drain, no close of another connection puts it there. As a wantlist is handed only to a connection
+of that set (`send_on_own_connection`), a connection whose handler may still hold an undelivered
+wantlist is never handed a second one. -/
+theorem given_up_stays_given_up (s : ClientLink.State) (a : Act) (q c : Nat) (ps' : PeerSt)
+    (hne : ∀ p, a ≠ .connect p c)
+    (h : (ClientLink.step s a).cl.s.peers[q]? = some ps') (hc : c ∈ ps'.conns) :
+    ∃ ps, s.cl.s.peers[q]? = some ps ∧ c ∈ ps.conns :=
+  Proofs.ClientLink.conns_only_by_connect s a q c ps' hne h hc
 
 end
 
